@@ -46,6 +46,8 @@ def run(ctx):
     # cut out again by the outer insertion's stale view of the list ends: it would never be destroyed
     from . import c12
     ctx.step(c12.reentrancy_rule, ctx, "C13.reentrancy")
+    # a handle's registration record is reclaimed only after the handle gave it back: every handle does so exactly once
+    ctx.step(common.raii_token_moves, ctx, "C13.balance", ["rcu_list.hpp", "rcu_guarded.hpp"])
 
 
 def nullable(ctx):
